@@ -100,6 +100,16 @@ Theorem C20_ids_never_reused_upload : forall o st rq,
   /\ match out with UOk id _ => ~ In id (us_ids st) /\ In id (us_ids st') | UErr => True end.
 Proof. exact (ids_never_reused_upload result rec parse_file coalesce rejects alloc alloc_fresh). Qed.
 
+(** /uploads hides uploads without records; a failed upload changes no listing *)
+Theorem C20_listing_hides_recordless_uploads : forall (st : ustate rec) id n,
+  In (id, n) (listing rec st) ->
+  n <> 0 /\ exists recs, In (id, recs) (us_recs st) /\ n = length recs.
+Proof. exact (listing_hides_recordless_uploads rec). Qed.
+
+Theorem C20_failed_upload_not_listed : forall o st rq st',
+  run o st rq = (st', UErr) -> listing rec st' = listing rec st.
+Proof. exact (failed_upload_not_listed result rec parse_file coalesce rejects alloc). Qed.
+
 End C20.
 
 Print Assumptions C20_upload_all_or_nothing.
@@ -110,13 +120,15 @@ Print Assumptions C20_failed_file_removed.
 Print Assumptions C20_earlier_uploads_untouched.
 Print Assumptions C20_history_preserves_earlier.
 Print Assumptions C20_ids_never_reused_upload.
+Print Assumptions C20_listing_hides_recordless_uploads.
+Print Assumptions C20_failed_upload_not_listed.
 
 (** recorded finding (code as it is): the clause "a request body cut off at any
     point leaves no record" fails when the cleanly framed body stops inside the
     header of a later part — the part loop sees the end of the form and commits *)
 Theorem C20_cut_in_later_header_refuted :
   exists st' fids,
-    run_upload_sf (Some (bs "20260930.1")) (mkOracle false (fun _ => false) false false)
+    run_upload_sf (Some (bs "20260930.1")) (mkOracle false (fun _ => false) (fun _ => false) false false)
                   (mkUs [] [] []) witness_cut_request = (st', UOk (bs "20260930.1") fids)
     /\ length (us_recs st') = 1.
 Proof. exact cut_in_later_header_committed. Qed.
@@ -186,9 +198,9 @@ Proof. reflexivity. Qed.
 Example C20_example_fault :
   let rq := mkReq [IFile (bs "a.txt") (bs "BenchmarkA 1 2 ns/op" ++ [c_lf]) 1 false; ICommit] EndClosed [] (bs "t") in
   (* no fault: stored *)
-  (exists st' f, run_upload_sf (Some (bs "20260930.1")) (mkOracle false (fun _ => false) false false) (mkUs [] [] []) rq
+  (exists st' f, run_upload_sf (Some (bs "20260930.1")) (mkOracle false (fun _ => false) (fun _ => false) false false) (mkUs [] [] []) rq
                  = (st', UOk (bs "20260930.1") f) /\ length (us_recs st') = 1 /\ length (us_fs st') = 1)
   (* the separator write (5th file-store operation) fails: nothing stored, file gone *)
-  /\ (exists st', run_upload_sf (Some (bs "20260930.1")) (mkOracle false (fun n => Nat.eqb n 5) false false) (mkUs [] [] []) rq
+  /\ (exists st', run_upload_sf (Some (bs "20260930.1")) (mkOracle false (fun n => Nat.eqb n 5) (fun _ => false) false false) (mkUs [] [] []) rq
                  = (st', UErr) /\ us_recs st' = [] /\ us_fs st' = []).
 Proof. split; [eexists; eexists | eexists]; repeat split; vm_compute; reflexivity. Qed.
